@@ -577,10 +577,52 @@ impl<'a> R<'a> {
                 Some(format!("{{\n{}}}", body))
             }
             ("collect", 0) => {
-                let p = self.parse_pipeline(&mc.receiver)?;
+                // R2c: `L.chain(R).collect()` where L has its own stages: the elements of L, then those of R
+                let mut tail: Option<Expr> = None;
+                let mut head_expr: Expr = (*mc.receiver).clone();
+                if self.parse_pipeline(&mc.receiver).is_none() {
+                    if let Expr::MethodCall(ch) = strip_paren(&mc.receiver) {
+                        if ch.method == "chain" && ch.args.len() == 1 {
+                            head_expr = (*ch.receiver).clone();
+                            tail = Some(ch.args[0].clone());
+                        }
+                    }
+                }
+                let p = self.parse_pipeline(&head_expr)?;
+                let tail_text = match &tail {
+                    None => None,
+                    Some(t) => {
+                        // only `std::iter::once(E)` and plain pipelines are understood on the right of the chain
+                        let mut once: Option<&Expr> = None;
+                        if let Expr::Call(c) = strip_paren(t) {
+                            if let Expr::Path(pp) = strip_paren(&c.func) {
+                                if pp.path.segments.last().map(|s| s.ident == "once").unwrap_or(false) && c.args.len() == 1 {
+                                    once = Some(&c.args[0]);
+                                }
+                            }
+                        }
+                        match once {
+                            Some(e) => Some((true, e.clone())),
+                            None => {
+                                self.parse_pipeline(t)?;
+                                Some((false, t.clone()))
+                            }
+                        }
+                    }
+                };
                 self.rule("R2b:pipeline-desugaring");
                 let lid = self.fresh(); self.pending_loop = Some(lid); let rv = format!("__out{}", lid);
-                let body = self.gen_pipeline(&p, &Sink::Collect, &rv);
+                let mut body = self.gen_pipeline(&p, &Sink::Collect, &rv);
+                if let Some((is_once, t)) = tail_text {
+                    self.rule("R2c:chain-after-stages");
+                    if is_once {
+                        let e = self.render_expr(&t);
+                        body.push_str(&format!("/*@M:chain-once@*/ {}.push({});\n", rv, e));
+                    } else {
+                        let p2 = self.parse_pipeline(&t)?;
+                        body.push_str(&self.gen_pipeline(&p2, &Sink::Collect, &rv));
+                    }
+                }
                 let ty = match &mc.turbofish {
                     Some(t) if t.args.len() == 1 => {
                         let tt = self.text(t.args[0].span()).to_string();
@@ -1168,6 +1210,25 @@ impl<'r, 'a, 'ast> Visit<'ast> for V<'r, 'a> {
                 let t = format!(
                     "{{ {pre}/*@PRE#{k}@*/ for __e{k} in __it{k}: {src} /*@INV#{k}@*/ {{ /*@TOP#{k}@*/\nlet {pat} = __e{k};\n{inner}\n/*@BOT#{k}@*/ }} /*@POST#{k}@*/ }}",
                     pre = pre, k = k, src = src, pat = pat, inner = inner
+                );
+                self.replace(e.span(), t);
+            }
+            Expr::While(w) if matches!(&*w.cond, Expr::Let(_)) => {
+                // R20: `while let P = E { B }` is `loop { match E { P => { B } _ => break } }` (the language's own desugaring)
+                self.r.rule("R20:while-let-desugaring");
+                let l = match &*w.cond { Expr::Let(l) => l, _ => unreachable!() };
+                let scrut = self.r.render_expr(&l.expr);
+                let pat = self.r.render_pat(&l.pat);
+                let k = self.r.fresh();
+                let sig = format!("while let {} = {}", norm(self.r.text(l.pat.span())), norm(self.r.text(l.expr.span())));
+                self.r.loop_sigs.insert(k, sig);
+                let save = self.r.in_foreach;
+                self.r.in_foreach = if save > 0 { usize::MAX } else { 0 };
+                let inner = self.r.render_block_inner(&w.body);
+                self.r.in_foreach = save;
+                let t = format!(
+                    "/*@PRE#{k}@*/ loop /*@INV#{k}@*/ {{ /*@TOP#{k}@*/\nlet __nx{k} = {scrut};\nmatch __nx{k} {{ {pat} => {{ /*@M:item@*/\n{inner}\n}} _ => {{ break; }} }}\n/*@BOT#{k}@*/ }} /*@POST#{k}@*/",
+                    k = k, scrut = scrut, pat = pat, inner = inner
                 );
                 self.replace(e.span(), t);
             }
